@@ -195,4 +195,65 @@ def probe (allow : Bool) (cached : Option Bool) (isVec : Bool) : Nat × Bool × 
 def probeDraws (allow0 : Bool) (a : PoolArgs) (cached : Option Bool) (isVec : Bool) : Nat :=
   (probe (configurePool allow0 a).1 cached isVec).1
 
+
+/-! ## 4. `BaseNestedSampler.configure_random_seed` -/
+
+/-- Python values of the `seed` argument: `None` or an integer.  `seed is None` -/
+def pyIsNone : Option Int → Bool
+  | none => true
+  | some _ => false
+
+/-- truthiness of the seed argument (`if seed:` / `if not seed:`): `None` and `0` are falsy -/
+def pyTruthy : Option Int → Bool
+  | none => false
+  | some n => n != 0
+
+inductive CmpOp | eq | ne | lt | le | gt | ge
+deriving DecidableEq, Repr
+
+/-- `seed <op> c` for an integer constant (`None == c` is False, `None != c` True; ordering with `None` modelled False) -/
+def pyCmp (op : CmpOp) (s : Option Int) (c : Int) : Bool :=
+  match s, op with
+  | none, .ne => true
+  | none, _ => false
+  | some n, .eq => n == c
+  | some n, .ne => n != c
+  | some n, .lt => decide (n < c)
+  | some n, .le => decide (n ≤ c)
+  | some n, .gt => decide (n > c)
+  | some n, .ge => decide (n ≥ c)
+
+/-- an assignment to `seed` (the argument) or `self.seed` inside `configure_random_seed` -/
+structure SeedBind where
+  line : Nat
+  target : String
+  value : String
+  inGuard : Bool
+deriving DecidableEq, Repr
+
+/-- a call that seeds a generator inside `configure_random_seed` -/
+structure SeedCall where
+  line : Nat
+  call : String
+  source : RngSource
+  arg : String
+  unconditional : Bool
+deriving DecidableEq, Repr
+
+/-- the argument may only be rebound inside the replacement branch; `self.seed` must store exactly the argument, outside it -/
+def seedBindOk (b : SeedBind) : Bool :=
+  if b.target == "seed" then b.inGuard
+  else b.target == "self.seed" && b.value == "seed" && !b.inGuard
+
+/-- a seeding call must be a top-level statement (executed on every path) and pass the stored seed -/
+def seedCallOk (c : SeedCall) : Bool :=
+  c.unconditional && (c.arg == "self.seed" || c.arg == "seed")
+
+/-- `self.seed` is stored before every seeding call, and both global generators are seeded unconditionally -/
+def seedingOk (binds : List SeedBind) (calls : List SeedCall) : Bool :=
+  binds.all seedBindOk && calls.all seedCallOk &&
+  binds.any (fun b => b.target == "self.seed") &&
+  calls.all (fun c => binds.all fun b => b.target != "self.seed" || decide (b.line < c.line)) &&
+  calls.any (fun c => c.source == .numpyGlobal) && calls.any (fun c => c.source == .torchGlobal)
+
 end NessaiVerif.Tables
